@@ -41,7 +41,12 @@ func (t TypeAndCanAddr) Field(i int) StructField {
 func (t TypeAndCanAddr) FieldByIndex(index []int) StructField {
 	f := t.Field(index[0])
 	for _, idx := range index[1:] {
-		f = f.Type.Field(idx)
+		ft := f.Type
+		if ft.IsPtr() {
+			// fields promoted through embedded pointers
+			ft = ft.Elem()
+		}
+		f = ft.Field(idx)
 	}
 	f.Index = index
 	return f
